@@ -6,7 +6,7 @@ from ..model import qast
 CELLS = ['', 'a', 'b', 'ab', 'ba', '0', '1', '2', '10', '-1', '2.5', 'x|y', 'a b', 'É', "it's", 'q"t', ',', 'NR', 'None', 'a1', ' ']
 SMALL_CELLS = ['a', 'b', 'ab', '1', '2', '10', '']
 NAME_POOL = ['name', 'age', 'x1', 'Col_3', 'home_town', 'x y', 'Dist (km)', 'q"uote', "it's", 'Total%', 'k#1', 'été', 'b_c', 'zz', 'v', 'A', 'a_', 'ID', 'x-y', '[k]', 'back\\slash', 'tab\there', '', 'NR', 'NF', 'NU']
-STR_LITS = ['', 'x', 'ab', ' ', 'a,b', 'a)b', '(', 'x, y', "it's", 'q"t', '[1]', 'É', '%', 'a1', '#', '=', ';', '$$', 'a$&b', 'US$', '$1', "$'", 'x\\\\']
+STR_LITS = ['', 'x', 'ab', ' ', 'a,b', 'a)b', '(', 'x, y', "it's", 'q"t', '[1]', 'É', '%', 'a1', '#', '=', ';', '$$', 'a$&b', 'US$', '$1', "$'", 'x\\\\', 'such as x, y', 'n,COUNT(*)', 'cols: a, *, b', ' as z', 'top 1 distinct']
 LIKE_PATS = ['%', 'a%', '%b', '_', 'a_', '%a%', 'ab', '_%', '1%', '%.%', 'x|y', '']
 
 
@@ -351,6 +351,14 @@ class G(object):
         else:
             for j in targets:
                 q['assign'].append([['field', 'a', j, self.assign_spelling(j)], self.e_any(2, allow_list=False)])
+        if q['assign'] and rng.random() < 0.08 and getattr(self, 'py_fstrings', True):
+            # Python only: a right-hand side that reads columns (the target among them) nowhere but inside an f-string
+            a0 = q['assign'][rng.randrange(len(q['assign']))]
+            j = a0[0][2]
+            sp = a0[0][3] if a0[0][3] in ('var', 'arr', 'attr') else 'var'
+            parts = [['field', 'a', j, sp], rng.choice(['!', '-', ' {x} ', "it's"]), rng.choice([['NU'], ['NR'], ['field', 'a', 0, 'var']])]
+            rng.shuffle(parts)
+            a0[1] = ['fstr', parts]
         if q['assign'] and rng.random() < 0.15:
             # the same column assigned twice (possibly under two spellings): every right-hand side still sees the ORIGINAL record, the later one wins
             f0 = q['assign'][rng.randrange(len(q['assign']))][0]
